@@ -1302,6 +1302,17 @@ class Config:  # pylint: disable=too-many-instance-attributes
                     value = sensitive_mask * len(str(field_value))
                 else:
                     value = sensitive_mask
+            elif (
+                isinstance(field_value, ContainerValueMixin)
+                and field_value
+                and all(isinstance(item, Config) for item in field_value)  # type: ignore
+            ):
+                # a list of configurations: render each item like a nested configuration so
+                # that the mask (and virtual fields) apply to the items as well
+                value = [
+                    item.to_tree(virtual=virtual, sensitive_mask=sensitive_mask)
+                    for item in field_value  # type: ignore
+                ]
             elif isinstance(field, Field):
                 try:
                     value = field.to_basic(self, field_value)
